@@ -260,7 +260,11 @@ func collKindOf[K any](name string, cfg CollCfg, conv collConv[K], mk func() art
 			}
 			return strings.Compare(sa, sb)
 		},
-		ID:    func(a K) string { return conv.from(a) },
+		// identity is the collator's: strings it cannot tell apart (another normal form, an
+		// appended ignorable, another case under IgnoreCase) are one key whose first
+		// spelling stays stored (fix: commit "collation trees: collator-equal spellings")
+		ID:    func(a K) string { return string(o.key(conv.from(a))) },
+		Len:   func(a K) int { return len(conv.from(a)) },
 		Clone: func(a K) K { return conv.to(conv.from(a)) },
 		Show:  func(a K) string { return fmt.Sprintf("%q", conv.from(a)) },
 		Pool: func(r *rng.R, n int) []K {
